@@ -38,6 +38,9 @@ type evalError struct{ msg string }
 
 func evalFail(format string, a ...interface{}) { panic(evalError{fmt.Sprintf(format, a...)}) }
 
+// curResTypes: result types of the tracked callees of the function being verified (set by verifyFunc).
+var curResTypes map[string][]types.Type
+
 type Env struct {
 	eng    *Engine
 	st     *State
@@ -1074,6 +1077,33 @@ func (e *Env) call(n *ast.CallExpr) tv {
 		}
 		r := fnApply(sig, ft, as)
 		return tv{r[0], sig.Results().At(0).Type()}
+	case "called": // called("callee"): the function under verification has called a tracked callee on this path
+		lit, ok := n.Args[0].(*ast.BasicLit)
+		if !ok {
+			evalFail("called: argument must be a string literal")
+		}
+		if t, ok := e.st.ghostV["called|"+strings.Trim(lit.Value, "\"")].(*Term); ok {
+			return tv{t, nil}
+		}
+		return tv{False, nil}
+	case "result": // result("callee", j): result j of the last call of a tracked callee on this path
+		lit, ok := n.Args[0].(*ast.BasicLit)
+		jl, ok2 := n.Args[1].(*ast.BasicLit)
+		if !ok || !ok2 {
+			evalFail("result: expects (\"callee\", index)")
+		}
+		name := strings.Trim(lit.Value, "\"")
+		j, _ := strconv.Atoi(jl.Value)
+		if curResTypes == nil || j >= len(curResTypes[name]) {
+			evalFail("result(%q, %d): no such tracked call in this function", name, j)
+		}
+		key := fmt.Sprintf("res|%s|%d", name, j)
+		v, ok := e.st.ghostV[key]
+		if !ok {
+			v = e.st.fresh(curResTypes[name][j], "untracked|"+name)
+			e.st.ghostV[key] = v
+		}
+		return tv{v, curResTypes[name][j]}
 	case "failed": // failed("callee"): ghost flag of a `propagates` clause
 		lit, ok := n.Args[0].(*ast.BasicLit)
 		if !ok {
